@@ -34,6 +34,7 @@ import (
 	"github.com/celestiaorg/celestia-node/header"
 	"github.com/celestiaorg/celestia-node/share"
 	"github.com/celestiaorg/celestia-node/share/availability"
+	"github.com/celestiaorg/celestia-node/verifx/sq"
 )
 
 const vChain = "private"
@@ -209,12 +210,24 @@ type vBlockSpec struct {
 	// Inconsistent: the header's data hash does not commit to the transactions (a block no
 	// honest consensus node produces). Only "stored square == published header" is demanded.
 	Inconsistent bool `json:"inconsistent,omitempty"`
+	// Unbuildable: an ordinary transaction follows a blob transaction, so no square can be built
+	// from the block (extending the block data fails): every ingest of it is a failed ingest.
+	Unbuildable bool `json:"unbuildable,omitempty"`
+	// Layout (instead of Content): the square is the sq layout of that name; there is no
+	// consensus block for it, only the extended header the availability path is given.
+	Layout string `json:"layout,omitempty"`
 }
 
 func (s vBlockSpec) String() string {
 	x := ""
 	if s.Inconsistent {
 		x = ",inconsistent"
+	}
+	if s.Unbuildable {
+		x += ",unbuildable"
+	}
+	if s.Layout != "" {
+		return fmt.Sprintf("h%d(%s,%s)", s.Height, s.TC, s.Layout)
 	}
 	return fmt.Sprintf("h%d(%s,v%d,%s%s)", s.Height, s.TC, s.AppV, s.Content, x)
 }
@@ -266,21 +279,50 @@ func vMakeBlock(spec vBlockSpec) (*vBlock, error) {
 	if spec.AppV == 0 {
 		spec.AppV = appconsts.Version
 	}
-	txs, err := spec.Content.txs(int(spec.Height))
-	if err != nil {
-		return nil, err
+	var (
+		txs   [][]byte
+		eds   *rsmt2d.ExtendedDataSquare
+		roots *share.AxisRoots
+		err   error
+	)
+	switch {
+	case spec.Layout != "":
+		l, err := sq.ParseLayout(spec.Layout)
+		if err != nil {
+			return nil, err
+		}
+		sqr, err := sq.Build(l, int(spec.Height))
+		if err != nil {
+			return nil, err
+		}
+		eds = sqr.EDS
+	case spec.Unbuildable:
+		if txs, err = spec.Content.txs(int(spec.Height)); err != nil {
+			return nil, err
+		}
+		if len(spec.Content.Blobs) == 0 {
+			return nil, fmt.Errorf("harness: unbuildable block %s needs a blob transaction", spec)
+		}
+		txs = append(txs, []byte{0xFF, 0xEE, byte(spec.Height), 1, 2, 3})
+		if _, err := da.ConstructEDS(txs, spec.AppV, -1); err == nil {
+			return nil, fmt.Errorf("harness: block %s was meant to be unbuildable", spec)
+		}
+	default:
+		if txs, err = spec.Content.txs(int(spec.Height)); err != nil {
+			return nil, err
+		}
+		if eds, err = vRefSquare(txs, spec.AppV); err != nil {
+			return nil, fmt.Errorf("harness: reference square of %s: %w", spec, err)
+		}
 	}
-	eds, err := vRefSquare(txs, spec.AppV)
-	if err != nil {
-		return nil, fmt.Errorf("harness: reference square of %s: %w", spec, err)
-	}
-	roots, err := share.NewAxisRoots(eds)
-	if err != nil {
-		return nil, err
-	}
-	dataHash := roots.Hash()
-	if spec.Inconsistent {
-		dataHash = vDet32("not-the-data-hash", spec.Height)
+	dataHash := vDet32("not-the-data-hash", spec.Height)
+	if eds != nil {
+		if roots, err = share.NewAxisRoots(eds); err != nil {
+			return nil, err
+		}
+		if !spec.Inconsistent {
+			dataHash = roots.Hash()
+		}
 	}
 	rh := &types.Header{
 		Version:            version.Consensus{Block: 11, App: spec.AppV},
@@ -306,8 +348,14 @@ func vMakeBlock(spec vBlockSpec) (*vBlock, error) {
 	for i := range txs {
 		ttxs[i] = txs[i]
 	}
+	_ = commit.Hash() // memoised inside the commit: fill it before the block is shared
 	b := &vBlock{spec: spec, h: uint64(spec.Height), eds: eds, roots: roots}
-	b.sb = &SignedBlock{Header: rh, Commit: commit, Data: &types.Data{Txs: ttxs}, ValidatorSet: vValSet}
+	if spec.Layout == "" {
+		b.sb = &SignedBlock{Header: rh, Commit: commit, Data: &types.Data{Txs: ttxs}, ValidatorSet: vValSet}
+	}
+	if eds == nil {
+		return b, nil
+	}
 	b.empty = bytes.Equal(roots.Hash(), share.EmptyEDSRoots().Hash())
 	w := int(eds.Width()) / 2
 	for r := 0; r < w; r++ {
@@ -320,7 +368,7 @@ func vMakeBlock(spec vBlockSpec) (*vBlock, error) {
 			return nil, fmt.Errorf("harness: generated header of %s does not validate: %w", spec, err)
 		}
 	}
-	if spec.Content.isEmpty() != b.empty {
+	if spec.Layout == "" && spec.Content.isEmpty() != b.empty {
 		return nil, fmt.Errorf("harness: %s: empty content %v but empty square %v", spec, spec.Content.isEmpty(), b.empty)
 	}
 	return b, nil
